@@ -125,6 +125,16 @@ func c16Run(x *core.Ctx) {
 		hc := core.NewCase("huge", "grammar", g, "tokens", strconv.Itoa(1<<20+1000+x.Rand(5).Intn(50000)))
 		x.Do(hc, func() { c16Check(x, hc) })
 	}
+	// degenerate documents: nothing at all, only ignored characters, only comments (T is 0 or the number of comments)
+	if x.Shard == 1 {
+		for _, text := range []string{"", " ", "\n", "\ufeff", ",,,", "\ufeff \r\n,", "# only a comment", "# one\n# two\n", "#", "\n#\n", "  # c  \n  ,  "} {
+			for _, g := range []string{"query", "schema"} {
+				c := core.NewCase("limits", "grammar", g, "src", text)
+				x.Do(c, func() { c16Check(x, c) })
+				x.Count("degenerate_documents")
+			}
+		}
+	}
 	// floods: a fixed list distributed over the shards
 	sizes := []int{1 << 20}
 	limits := []int{1, 10, 1000}
